@@ -327,6 +327,11 @@ def correspondence_cases(ctx: vlib.Ctx, n_schemas: int, n_values: int):
                                      "true" if why is None else "false", parsed, dec))
                     descr.append({"format": F, "src": src, "root": root.name, "value_src": L.vsrc(v), "outside": why, "dec": dec})
                     ctx.hist("correspondence_formats", F + (":outside-subset" if why else ""))
+        except Exception as e:   # the implementation raised where the model is total: keep going, report
+            ctx.hist("correspondence_errors", type(e).__name__)
+            if not any(u["name"].startswith("correspondence: implementation raised") for u in ctx.unshown):
+                ctx.not_shown("correspondence: implementation raised on a small-grammar case",
+                              f"{_exc(e)}\n{traceback.format_exc()[-1200:]}\n{src[-800:]}")
         finally:
             L.unload_module(modname)
     return cases, descr
@@ -427,6 +432,10 @@ class P(%s):
                                   "value_src": "P(1, datetime.date(2020, 1, 2))", "phase": phase, "orjson_options": 0,
                                   "observed": observed, "expected": expected},
                                  {"format": F, "entry": "mixin", "phase": phase, "kind": "mixin-order"})
+            except Exception as e:
+                ctx.fail(f"class with mixins {perm} cannot be created/used: {_exc(e)}",
+                         {"entry": "schema", "src": s, "observed": traceback.format_exc()[-1500:], "expected": "classes are created"},
+                         {"kind": "schema-compile", "exc": type(e).__name__})
             finally:
                 L.unload_module(modname)
 
@@ -466,7 +475,7 @@ def run(ctx: vlib.Ctx):
     names_oracle(ctx)
     n_s, n_v = ctx.budget(160, 2200), ctx.budget(5, 8)
     if broken:      # a proof obligation or the correspondence broke: search harder for a failing input
-        n_s = ctx.budget(400, 3000)
+        n_s = ctx.budget(260, 3000)
     law_fail = oracle(ctx, n_s, n_v)
     if law_fail:
         ctx.not_shown("fmt_law validation (assumption about the format libraries)", str(law_fail[:5]))
